@@ -55,7 +55,7 @@ def root_of(fn, i):
                     path.append('[]')
                     i = obj
                     continue
-                if name in SMART_DEREF:
+                if name in SMART_DEREF or name == 'rdbuf':
                     i = obj
                     continue
                 if name in ('begin', 'end', 'cbegin', 'cend'):
@@ -179,7 +179,7 @@ class Renderer:
                         if m['k'] == 'DeclRefExpr' and m['decl'].get('dk') == 'local':
                             bad.add(m['decl']['id'])
         # non-const reference locals bound to something: keep (they alias), handled by render
-        self._single = {i: d for i, d in defs.items() if i not in bad}
+        self._single = {i: d for i, d in defs.items() if i not in bad or d.get('isref')}
         return self._single
 
     def render(self, i, depth=0):
@@ -251,6 +251,14 @@ class Renderer:
                     g = inline_getter(f)
                     if g is not None:
                         return re.sub(r'\bthis\b', lambda m: o, g)
+                # X.elem_nonConst(..) == X.elem(..); X.elem(X.elemIdx(N)) == X.elem(N)  (C11 verifies
+                # that by-name accessors are positional(indexByName(name)) on one container)
+                if name.endswith('_nonConst'):
+                    name = name[:-len('_nonConst')]
+                if len(args) == 1:
+                    pre = '%s.%sIdx(' % (o, name)
+                    if args[0].startswith(pre) and args[0].endswith(')'):
+                        args = [args[0][len(pre):-1]]
                 return '%s.%s(%s)' % (o, name, ','.join(args))
             return '%s(%s)' % (c['qname'], ','.join(args))
         if k in ('CallExpr', 'CXXConstructExpr', 'CXXTemporaryObjectExpr') and 'callee' in n:
@@ -259,6 +267,8 @@ class Renderer:
             if k != 'CallExpr' and len(args) == 1 and (c.get('copy') or c.get('move')):
                 return args[0]
             if k != 'CallExpr':
+                if c.get('class') == 'std::basic_string<char>' and args and args[0].startswith('"'):
+                    return args[0]
                 return '%s{%s}' % (c.get('class', c['qname']), ','.join(args))
             return '%s(%s)' % (c['qname'], ','.join(args))
         if k == 'CXXNewExpr':
